@@ -292,7 +292,7 @@ func c02RichPrograms(alpha []c02RuleVar) [][]int {
 func init() {
 	alpha := c02RuleAlphabet()
 	n := len(alpha)
-	fw.Register(addTok(tokFramesC02, &fw.Prop{
+	register(addTok(tokFramesC02, &fw.Prop{
 		ID: "C02",
 		Rule: "rule sequences over 35 rule variants (BEGIN/END/BEGINFILE/ENDFILE with nothing, exit or next; pattern-less, true, false and $>1 pattern rules with nothing, next or exit; next / exit raised in a callee inside a print list or an array literal; next raised by a callee while a rule's pattern is evaluated; next inside the block body of a binding match case and a rule that reads the bound name as a global; a body-less pattern rule, a rule that mutates $), every body printing its rule number, $, $file (and $index when every root is an array); " +
 			"(A) all sequences of <= N rules on three rich configurations, (B) 16 fixed rich programs on all 915 configurations (0-2 files x 14 file contents incl. empty, two values and all root shapes x 5 selector lists), (C) all sequences of <= M rules on all configurations; " +
